@@ -140,6 +140,9 @@ struct G<'a> {
     r: &'a mut Runner,
     side: u64,
     v: View,
+    rfc: Rfc,
+    /// send halves this test finished or reset (successfully) itself
+    closed_halves: BTreeSet<u64>,
     /// frames in flight: (id, a, b, fin)
     flight: Vec<(u64, u64, u64, bool)>,
     /// ids returned by open / accept
@@ -170,6 +173,8 @@ impl G<'_> {
         if self.dead {
             return None;
         }
+        let words: Vec<&str> = line.split(' ').collect();
+        let rfc_expect = self.rfc.expect(&words);
         let resp = self.r.op(&format!("streams {line}"));
         if resp == "panic" || resp == "bad-op" {
             self.dead = true;
@@ -178,8 +183,96 @@ impl G<'_> {
         }
         let nv = View::parse(&resp)?;
         let prev = std::mem::replace(&mut self.v, nv.clone());
+        let rfc_expect_ok = rfc_expect.as_ref().map_or(true, |e| e.is_empty());
+        if let Some(errs) = rfc_expect {
+            if !self.rfc.diverged {
+                self.rfc_compare(line, &words, &errs, &prev, &nv);
+            }
+        }
+        // a frame the RFC refuses counts as never sent (the connection would be closed); the facts follow
+        // the legal behaviour only
+        let legal = rfc_expect_ok;
+        self.rfc.update(&words, &nv.result, legal);
+        if matches!(words[0], "finish" | "reset") && nv.result == "ok" {
+            if let Some(id) = words.get(1).and_then(|x| x.parse::<u64>().ok()) {
+                self.closed_halves.insert(id);
+            }
+        }
         self.invariants(line, &prev, &nv);
         Some(nv)
+    }
+
+    /// the implementation's answer against the RFC verdict (`errs` = acceptable error codes)
+    fn rfc_compare(&mut self, line: &str, w: &[&str], errs: &[&'static str], prev: &View, v: &View) {
+        let got_err: Option<&str> = v.result.strip_prefix("err ").map(|r| r.split(' ').next().unwrap_or(""));
+        let unchanged = v.send == prev.send && v.recv == prev.recv && v.pend == prev.pend
+            && ["ds", "md", "ua", "lmd", "dr", "nr", "mr", "nx", "mx"].iter().all(|k| v.kv.get(*k) == prev.kv.get(*k));
+        let id: u64 = w.get(1).and_then(|x| x.parse().ok()).unwrap_or(u64::MAX);
+        let facts = format!(
+            "impl_recv_state={:?} adv_streams={:?} adv_max_data={} adv_msd={} opened={:?} sent_hw={:?} final={:?} total={}",
+            prev.rs(id, "st").map(|s| format!("{s} sp={}", prev.rn(id, "sp").unwrap_or(0))),
+            self.rfc.adv_streams, self.rfc.adv_max_data, self.rfc.msd(id), self.rfc.opened,
+            self.rfc.hw.get(&id), self.rfc.fin.get(&id), self.rfc.total
+        );
+        match (errs.is_empty(), got_err) {
+            (true, None) => {}
+            (false, Some(e)) if errs.contains(&e) => {}
+            (true, Some(e)) => {
+                self.fail("C06-rfc-decision", format!("{line}: RFC accepts the frame, implementation answers {e} ({facts})"));
+            }
+            (false, Some(e)) => {
+                self.fail("C06-rfc-decision", format!("{line}: RFC verdict {errs:?}, implementation answers {e} ({facts})"));
+            }
+            (false, None) => {
+                // classes of leniency, each with its own key so that they can be judged one by one
+                let d = (id / 2 % 2) as usize;
+                let end: u64 = match w[0] {
+                    "stream" => w[2].parse::<u64>().unwrap_or(0).saturating_add(w[3].parse::<u64>().unwrap_or(0)),
+                    "rst" => w[3].parse().unwrap_or(0),
+                    _ => 0,
+                };
+                let hw = self.rfc.hw.get(&id).cloned().unwrap_or(0);
+                // the implementation's own (printed) limits, used ONLY to name the kind of leniency
+                let within_internal_count = id / 4 < prev.two("mr")[d];
+                let within_internal_conn = prev.n("dr").saturating_add(end.saturating_sub(prev.rn(id, "end").unwrap_or(hw))) <= prev.n("lmd");
+                let data_frame = matches!(w[0], "stream" | "rst");
+                let only = |allowed: &[&str]| errs.iter().all(|e| allowed.contains(e));
+                let over_adv_conn = self.rfc.total.saturating_add(end.saturating_sub(hw)) > self.rfc.adv_max_data;
+                let reset_recvd = prev.rs(id, "st").map_or(false, |s| s.starts_with("x:"));
+                // Each leniency has its own narrow key: it fires only on exactly the described pattern; every
+                // other disagreement is reported under the hard key `C06-rfc-decision`.
+                let key = if w[0] == "stopsend" && unchanged {
+                    // checked one level up (Connection::process_payload), nothing happened here
+                    return;
+                } else if matches!(w[0], "stream" | "rst" | "maxsd" | "stopsend") && only(&[E_LIMIT]) && within_internal_count {
+                    // RFC 9000 4.6 — id above the advertised count, below the count quinn is about to advertise
+                    "C06-lenient-max-streams-raised-before-advertised"
+                } else if data_frame && errs.contains(&E_LIMIT) && only(&[E_LIMIT, E_FLOW]) && within_internal_count
+                    && end <= self.rfc.msd(id) && over_adv_conn && within_internal_conn {
+                    "C06-lenient-max-streams-and-max-data-raised-before-advertised"
+                } else if data_frame && only(&[E_FLOW]) && end <= self.rfc.msd(id) && over_adv_conn && within_internal_conn {
+                    // RFC 9000 4.1 — above the advertised MAX_DATA, within the value quinn is about to advertise
+                    "C06-lenient-max-data-raised-before-advertised"
+                } else if data_frame && only(&[E_FINAL, E_FLOW, E_ENC]) && !prev.recv.contains_key(&id) && unchanged {
+                    // RFC 9000 4.5 — "Generating these errors is not mandatory" once the stream is closed
+                    "C06-lenient-frame-for-closed-stream-ignored"
+                } else if w[0] == "stream" && only(&[E_FINAL, E_FLOW, E_ENC]) && reset_recvd && unchanged {
+                    // STREAM data after RESET_STREAM (reset not yet read by the application) is dropped unchecked
+                    "C06-lenient-stream-frame-after-reset-ignored"
+                } else {
+                    "C06-rfc-decision"
+                };
+                if !unchanged {
+                    self.rfc.diverged = true;
+                }
+                if key == "C06-lenient-frame-for-closed-stream-ignored" {
+                    // RFC 9000 4.5: "Generating these errors is not mandatory" once the stream is closed and its state
+                    // dropped — the endpoint cannot know the final size any more; not a violation
+                    return;
+                }
+                self.fail(key, format!("{line}: RFC verdict {errs:?}, implementation accepts (state {}; {facts})", if unchanged { "unchanged" } else { "changed" }));
+            }
+        }
     }
 
     fn fail(&mut self, key: &str, what: String) {
@@ -442,14 +535,20 @@ impl G<'_> {
             if self.stopped_events.contains(&id) && !prev.closed() && st == "R" && v.result == "err Blocked" {
                 self.fail("C11-write-blocked-on-stopped-stream", format!("write {id} {n} after the Stopped event: credit conn={conn} stream={stream_credit}, got {}", v.result));
             }
+            // C11: "report a closed stream after finish, reset or full acknowledgement" — the test itself
+            // finished or reset this half earlier; the answer must not depend on connection-level credit
+            if self.closed_halves.contains(&id) && !prev.closed() && v.result != "err ClosedStream" {
+                self.fail("C11-write-on-closed-half-blocked", format!("write {id} {n} after finish/reset of that half: credit conn={conn} stream={stream_credit}, got {}", v.result));
+            }
+            // the result is determined by the state of the half; only the accepted amount depends on credit
             let expect = if prev.closed() {
-                "err Blocked".to_string()
-            } else if let (true, Some(c)) = (st == "R", stop_code.as_ref()) {
-                format!("err Stopped {c}")
-            } else if conn == 0 {
                 "err Blocked".to_string()
             } else if st != "R" {
                 "err ClosedStream".to_string()
+            } else if let Some(c) = stop_code.as_ref() {
+                format!("err Stopped {c}")
+            } else if conn == 0 {
+                "err Blocked".to_string()
             } else if stream_credit == 0 {
                 "err Blocked".to_string()
             } else {
@@ -613,6 +712,12 @@ impl G<'_> {
         .min(V62);
         let code = self.rng.below(100);
         let Some(v) = self.op(&format!("rst {id} {code} {fo}")) else { return };
+        // a retransmitted RESET_STREAM (stream already reset, same final size) is a no-op
+        if prev.rs(id, "st").map_or(false, |s| s.starts_with("x:")) && fin_known == Some(fo) {
+            if v.result != "ok 0" || v.recv != prev.recv || v.kv != prev.kv {
+                self.fail("C06-duplicate-reset-not-noop", format!("rst {id} {code} {fo} on a stream already reset with final size {fo}: {} (dr {}->{} lmd {}->{})", v.result, prev.n("dr"), v.n("dr"), prev.n("lmd"), v.n("lmd")));
+            }
+        }
         if let Some(st) = prev.rs(id, "st") {
             let remote = id % 2 != self.side;
             let over_count = remote && id / 4 >= prev.two("mr")[(id / 2 % 2) as usize];
@@ -622,7 +727,9 @@ impl G<'_> {
                     None => end > fo,
                 };
                 let new_bytes = fo.saturating_sub(end);
-                let flow_err = fo > sm || prev.n("dr").saturating_add(new_bytes) > prev.n("lmd");
+                // a stream that is already reset charged its final size before: no second flow-control test
+                let already_reset = st.starts_with("x:");
+                let flow_err = !already_reset && (fo > sm || prev.n("dr").saturating_add(new_bytes) > prev.n("lmd"));
                 let expect = if final_err {
                     Some("err FINAL_SIZE_ERROR")
                 } else if flow_err {
@@ -1055,6 +1162,8 @@ impl G<'_> {
         self.sent_md = false;
         self.sent_msd.clear();
         self.sent_ms = [false, false];
+        self.closed_halves.clear();
+        self.rfc = Rfc { side, adv_streams: [mrb, mru], adv_max_data: rw, init_msd: srw, ..Rfc::default() };
         let resp = self.r.op(&format!("streams new {} {mru} {mrb} {sw} {rw} {srw}", ["c", "s"][side as usize]));
         match View::parse(&resp) {
             Some(v) => {
@@ -1080,6 +1189,8 @@ impl G<'_> {
         }
         let Some(v) = View::parse(&resp) else { return false };
         self.v = v.clone();
+        self.rfc.update(&["rejected"], &v.result, true);
+        self.closed_halves.clear();
         self.flight.clear();
         self.local.clear();
         self.fresh.clear();
@@ -1153,6 +1264,29 @@ impl G<'_> {
             self.op("stream 0 0 50 1");
             self.op("read 0 200");
         }
+        // write-on-closed-half: connection credit used up, one stream finished, one reset, then writes
+        if self.start(1, 2, 2, 1000, 1000, 1000) {
+            self.apply_params([100, 100, 100, 2, 2, 10]);
+            self.open_dir(1);
+            self.open_dir(1);
+            self.op("write 3 10");
+            self.op("finish 3");
+            self.op("reset 7 5");
+            self.write_exact(3, 1);
+            self.write_exact(7, 1);
+        }
+        // dup-reset: window shrunk (debt), RESET_STREAM, then the same RESET_STREAM again
+        if self.start(1, 2, 2, 1000, 16, 16384) {
+            self.apply_params([100, 100, 100, 2, 2, 1000]);
+            self.op("recvwin 0");
+            self.op("rst 0 1 9");
+            let prev = self.v.clone();
+            if let Some(v) = self.op("rst 0 1 9") {
+                if v.result != "ok 0" || v.recv != prev.recv || v.kv != prev.kv {
+                    self.fail("C06-duplicate-reset-not-noop", format!("rst 0 1 9 twice: second answer {}", v.result));
+                }
+            }
+        }
         // F15: 59 bytes received, reset with final size 59 (credited), then stopped (credited again)
         if self.start(1, 2, 2, 100, 59, 2002) {
             self.apply_params([100, 100, 100, 2, 2, 100]);
@@ -1160,6 +1294,218 @@ impl G<'_> {
             self.op("rst 0 24 59");
             self.op("stop 0 35");
             self.op("stream 4 0 118 0");
+        }
+    }
+}
+
+
+/// What RFC 9000 says a receiver must do with a stream-related frame, computed ONLY from facts the
+/// test keeps itself in the role of the peer: the limits this endpoint advertised (configuration at
+/// `new`, then the MAX_DATA / MAX_STREAM_DATA / MAX_STREAMS frames seen leaving it), the streams it
+/// opened, and what the peer sent so far (highest offset and announced final size per stream).
+/// Nothing here is derived from the implementation's code or printed internal state.
+///
+/// Sources: RFC 9000 section 3 (stream states), 4.1 (flow control: "A receiver MUST close the
+/// connection with an error of type FLOW_CONTROL_ERROR if the sender violates the advertised connection
+/// or stream data limits"), 4.5 (final size: cannot change; not below data already received; counts
+/// towards flow control), 4.6 (stream count: "An endpoint that receives a frame with a stream ID
+/// exceeding the limit it has sent MUST treat this as a connection error of type STREAM_LIMIT_ERROR"),
+/// 19.4 RESET_STREAM, 19.5 STOP_SENDING, 19.8 STREAM, 19.9 MAX_DATA, 19.10 MAX_STREAM_DATA,
+/// 19.11 MAX_STREAMS; property texts C05 / C06 / C11.
+#[derive(Default, Clone)]
+struct Rfc {
+    side: u64,
+    /// cumulative stream count advertised to the peer, per direction (0 = bidi, 1 = uni)
+    adv_streams: [u64; 2],
+    adv_max_data: u64,
+    /// initial per-stream limit advertised in the transport parameters (one value in this harness)
+    init_msd: u64,
+    adv_msd: BTreeMap<u64, u64>,
+    /// streams this endpoint opened, per direction
+    opened: [u64; 2],
+    /// per stream the peer sends on: highest end offset sent (frames that were not refused)
+    hw: BTreeMap<u64, u64>,
+    /// final size announced by a FIN or RESET_STREAM that was not refused
+    fin: BTreeMap<u64, u64>,
+    /// sum of `hw` over all streams = what counts against the connection limit
+    total: u64,
+    /// the implementation accepted (with effect) a frame the RFC refuses: the RFC prescribes closing the
+    /// connection, the rest of the history is outside its scope
+    diverged: bool,
+}
+
+const E_STATE: &str = "STREAM_STATE_ERROR";
+const E_LIMIT: &str = "STREAM_LIMIT_ERROR";
+const E_FLOW: &str = "FLOW_CONTROL_ERROR";
+const E_FINAL: &str = "FINAL_SIZE_ERROR";
+const E_ENC: &str = "FRAME_ENCODING_ERROR";
+
+impl Rfc {
+    fn local(&self, id: u64) -> bool {
+        id % 2 == self.side
+    }
+    fn uni(id: u64) -> bool {
+        id / 2 % 2 == 1
+    }
+    /// errors of the "which stream is this" kind, for a frame that belongs to the RECEIVING part of `id`
+    /// (STREAM, RESET_STREAM) or to its SENDING part (MAX_STREAM_DATA, STOP_SENDING)
+    fn stream_errors(&self, id: u64, receiving_part: bool, errs: &mut Vec<&'static str>) {
+        let d = (id / 2 % 2) as usize;
+        if self.local(id) {
+            // 19.8 / 19.4 / 19.5 / 19.10: "for a locally initiated stream that has not yet been created"
+            if id / 4 >= self.opened[d] {
+                errs.push(E_STATE);
+            }
+            // a stream this endpoint can only send on
+            if receiving_part && Self::uni(id) {
+                errs.push(E_STATE);
+            }
+        } else {
+            // a stream this endpoint can only receive on
+            if !receiving_part && Self::uni(id) {
+                errs.push(E_STATE);
+            }
+            // 4.6
+            if id / 4 >= self.adv_streams[d] {
+                errs.push(E_LIMIT);
+            }
+        }
+    }
+    fn msd(&self, id: u64) -> u64 {
+        self.adv_msd.get(&id).cloned().unwrap_or(self.init_msd)
+    }
+    /// acceptable error codes for the operation (empty = the frame must be accepted); None = not a
+    /// peer frame
+    fn expect(&self, w: &[&str]) -> Option<Vec<&'static str>> {
+        let n = |i: usize| w.get(i).and_then(|x| x.parse::<u64>().ok());
+        let mut errs: Vec<&'static str> = Vec::new();
+        match w[0] {
+            "stream" => {
+                let (id, off, len, fin) = (n(1)?, n(2)?, n(3)?, n(4)? == 1);
+                let end = off.checked_add(len)?;
+                self.stream_errors(id, true, &mut errs);
+                // 19.8: the largest offset cannot exceed 2^62-1: FRAME_ENCODING_ERROR or FLOW_CONTROL_ERROR
+                if end > (1 << 62) - 1 {
+                    errs.push(E_ENC);
+                    errs.push(E_FLOW);
+                }
+                let hw = self.hw.get(&id).cloned().unwrap_or(0);
+                // 4.5
+                if let Some(&f) = self.fin.get(&id) {
+                    if end > f || (fin && end != f) {
+                        errs.push(E_FINAL);
+                    }
+                }
+                if fin && end < hw {
+                    errs.push(E_FINAL);
+                }
+                // 4.1
+                if end > self.msd(id) || self.total.saturating_add(end.saturating_sub(hw)) > self.adv_max_data {
+                    errs.push(E_FLOW);
+                }
+            }
+            "rst" => {
+                let (id, fo) = (n(1)?, n(3)?);
+                self.stream_errors(id, true, &mut errs);
+                let hw = self.hw.get(&id).cloned().unwrap_or(0);
+                if let Some(&f) = self.fin.get(&id) {
+                    if fo != f {
+                        errs.push(E_FINAL);
+                    }
+                }
+                if fo < hw {
+                    errs.push(E_FINAL);
+                }
+                // 4.5: the final size counts towards flow control
+                if fo > self.msd(id) || self.total.saturating_add(fo.saturating_sub(hw)) > self.adv_max_data {
+                    errs.push(E_FLOW);
+                }
+            }
+            "maxsd" => {
+                self.stream_errors(n(1)?, false, &mut errs);
+            }
+            "stopsend" => {
+                self.stream_errors(n(1)?, false, &mut errs);
+            }
+            "maxstreams" => {
+                // 19.11: a count above 2^60 cannot be expressed as a stream id
+                if n(2)? > 1 << 60 {
+                    errs.push(E_ENC);
+                    errs.push(E_LIMIT);
+                }
+            }
+            "maxdata" => {}
+            _ => return None,
+        }
+        Some(errs)
+    }
+    /// what the test learns from an executed operation
+    fn update(&mut self, w: &[&str], result: &str, legal: bool) {
+        let n = |i: usize| w.get(i).and_then(|x| x.parse::<u64>().ok());
+        let ok = result.starts_with("ok") && legal;
+        match w[0] {
+            "open" if ok => {
+                if let Some(id) = result.split(' ').nth(1).and_then(|x| x.parse::<u64>().ok()) {
+                    let d = (id / 2 % 2) as usize;
+                    self.opened[d] = self.opened[d].max(id / 4 + 1);
+                }
+            }
+            "rejected" if ok => {
+                // 0-RTT rejected: the streams this endpoint opened are gone
+                self.opened = [0, 0];
+                let side = self.side;
+                let gone: Vec<u64> = self.hw.keys().cloned().filter(|i| i % 2 == side).collect();
+                for i in gone {
+                    self.total -= self.hw.remove(&i).unwrap_or(0);
+                    self.fin.remove(&i);
+                }
+            }
+            "ctrl" if ok => {
+                for f in result.split(' ').skip(1) {
+                    let p: Vec<&str> = f.split('.').collect();
+                    let g = |i: usize| p.get(i).and_then(|x| x.parse::<u64>().ok());
+                    match p[0] {
+                        "MD" => self.adv_max_data = self.adv_max_data.max(g(1).unwrap_or(0)),
+                        "MSD" => {
+                            if let (Some(id), Some(v)) = (g(1), g(2)) {
+                                let cur = self.msd(id);
+                                self.adv_msd.insert(id, cur.max(v));
+                            }
+                        }
+                        "MS" => {
+                            if let (Some(d), Some(v)) = (g(1), g(2)) {
+                                let d = (d as usize).min(1);
+                                self.adv_streams[d] = self.adv_streams[d].max(v);
+                            }
+                        }
+                        _ => {}
+                    }
+                }
+            }
+            "stream" if ok => {
+                if let (Some(id), Some(off), Some(len), Some(fin)) = (n(1), n(2), n(3), n(4)) {
+                    let end = off + len;
+                    let hw = self.hw.get(&id).cloned().unwrap_or(0);
+                    if end > hw {
+                        self.total += end - hw;
+                        self.hw.insert(id, end);
+                    }
+                    if fin == 1 {
+                        self.fin.insert(id, end);
+                    }
+                }
+            }
+            "rst" if ok => {
+                if let (Some(id), Some(fo)) = (n(1), n(3)) {
+                    let hw = self.hw.get(&id).cloned().unwrap_or(0);
+                    if fo > hw {
+                        self.total += fo - hw;
+                        self.hw.insert(id, fo);
+                    }
+                    self.fin.insert(id, fo);
+                }
+            }
+            _ => {}
         }
     }
 }
@@ -1174,6 +1520,8 @@ pub fn streams(rng: &mut Rng, r: &mut Runner, maxops: usize) {
         r,
         side,
         v: View::default(),
+        rfc: Rfc::default(),
+        closed_halves: BTreeSet::new(),
         flight: Vec::new(),
         local: Vec::new(),
         accepted: Vec::new(),
